@@ -216,14 +216,14 @@ def evaluate(group_names, prop, tier, res, timeout_s=None, only_quick=None, skip
         if not hs:
             continue
         # the thorough tier contains harnesses of 5-17 GB each: fewer of them side by side (62 GB machine)
-        # ... and the ones marked mem=heavy (15-25 GB each) two at a time, in a second invocation
+        # ... and the ones marked mem=heavy (15-26 GB each) one at a time, in a second invocation
         heavy = [h for h in hs if h.extra.get('mem') == 'heavy']
         light = [h for h in hs if h.extra.get('mem') != 'heavy']
         results, cerr, wall, cmd = {}, None, 0, ''
         if light:
             results, cerr, wall, cmd = run_harnesses(ws, pkg, [h.name for h in light], timeout_s, jobs=(min(JOBS, 6) if tier == 'thorough' else JOBS), modpath={h.name: h.group.modpath for h in light})
         if heavy and not cerr:
-            r2, cerr, w2, cmd2 = run_harnesses(ws, pkg, [h.name for h in heavy], timeout_s, jobs=2, modpath={h.name: h.group.modpath for h in heavy})
+            r2, cerr, w2, cmd2 = run_harnesses(ws, pkg, [h.name for h in heavy], timeout_s, jobs=1, modpath={h.name: h.group.modpath for h in heavy})
             results.update(r2)
             cmd = cmd or cmd2
         res.checker_cmds.append(re.sub(r'(--harness \S+ ?)+', '--harness <%d harnesses> ' % len(hs), cmd))
